@@ -293,6 +293,10 @@ void run_case(Rng& rng, std::uint64_t idx)
         bool any = false;
         for (T x : w) any = any || x != T();
         if (!any) w[rng.below(channels)] = T(1);
+        bool all_enabled = true;
+        for (T x : w) all_enabled = all_enabled && x != T();
+        pm.fill_all = rng.below(2);      // half of the maps populate the densities of the disabled channels as well
+        if (pm.fill_all && !all_enabled) count("mc_runs_with_densities_written_for_disabled_channels");
         RecMap<T, PowerMap<T>> map = {&st.log, pm};
         typedef hep::multi_channel_chkpt_with_rng<Eng, T> chk_t;
         if (beh.has_dist)
